@@ -54,6 +54,7 @@ def run(ctx):
   regex_groups_into_tables(ctx)
   pitch_class_wraps_both_ways(ctx)
   bass_is_min_over_all_pitches(ctx)
+  modification_table_roles(ctx)
   pitfalls.apply(ctx, 'PITFALL', [fi for q, fi in sorted(mi.all_functions.items()) if '.' not in q], ['falsy-zero', 'misaligned-index', 'previous-wraps'], {
       'previous-wraps': 'the amount left over for the accidental is then reduced by a whole octave\'s worth of steps: the root / bass is spelled on the wrong letter (Db comes out as C)',
       'misaligned-index': 'the root written into the chord symbol is then not the root the chosen kind was found for: the named chord does not contain the supplied pitches',
@@ -714,6 +715,32 @@ def escapes(ctx, mi, T):
                pname_, sh_[0][0], sh_[0][1], sh_[0][1], sh_[0][1], sh_[0][0]) if sh_ else '', construct='%s: longest alternative first' % pname_, definite=True)
   ok = set(T['_DEGREE_OFFSETS']) == set(range(1, 8))
   ctx.ob('KEYERR/degree-offsets', mi, mi.assigns['_DEGREE_OFFSETS'][0], ok, 'normalised degrees 1..7 are exactly the keys of _DEGREE_OFFSETS' if ok else '_DEGREE_OFFSETS keys are %s' % sorted(T['_DEGREE_OFFSETS']), construct='_DEGREE_OFFSETS keys = 1..7')
+
+
+def modification_table_roles(ctx, rule='TAB/modification-roles'):
+  """The writer spells an *added* degree with an 'add' prefix (and an added seventh relative to the flat seventh, which only the
+  adding reader undoes), an altered one with the bare accidental, a removed one with 'no'.  The reader's dispatch table must send
+  every 'add...' prefix to the adding function, 'no' to the removing one and the bare accidentals to the altering one, with the
+  accidental's sign as the alteration."""
+  mi = ctx.P.module('chord_symbols_lib')
+  node = mi.assigns['_DEGREE_MODIFICATIONS'][0]
+  if not isinstance(node, ast.Dict):
+    why = 'cannot classify: _DEGREE_MODIFICATIONS is not a literal table'
+    ctx.ob(rule, mi, node, False, why, construct='modification prefixes dispatch to their readers', unknown=why)
+    return
+  want_fn = {'add': '_add_scale_degree', 'no': '_subtract_scale_degree', '': '_alter_scale_degree'}
+  for k, v in zip(node.keys, node.values):
+    if not (isinstance(k, ast.Constant) and isinstance(k.value, str) and isinstance(v, ast.Tuple) and len(v.elts) == 2):
+      continue
+    key = k.value
+    stem = 'add' if key.startswith('add') else ('no' if key.startswith('no') else '')
+    acc = key[len(stem):]
+    alter = acc.count('#') - acc.count('b')
+    got_fn, got_alter = norm_text(v.elts[0]), U.const_value(v.elts[1])
+    ok = got_fn == want_fn[stem] and got_alter == alter
+    ctx.ob(rule, mi, v, ok, '%r -> %s, %+d' % (key, got_fn, alter) if ok else
+           'the prefix %r is read by %s with alteration %s, not by %s with %+d: what the writer spells "(%s7)" / "(%s9)" is read back as another set of degrees' % (
+               key, got_fn, got_alter, want_fn[stem], alter, key, key), construct='_DEGREE_MODIFICATIONS[%r]' % key, definite=True)
 
 
 def bass_is_min_over_all_pitches(ctx, rule='SHAPE/bass-over-all-pitches'):
